@@ -139,7 +139,7 @@ var wkeySets = [][]vlib.WKSpec{
 
 var profC04 = vlib.Profile{
 	Prop: "C04", MinLogs: 1, MaxLogs: 2, MinOps: 2, MaxOps: 16,
-	Storages: []string{"mem", "sql"}, MaxJump: 300, OtherLogPct: 15, Decorate: 45, SharedKeys: true, WKeySets: wkeySets, PlantPct: 60, MaxJunkSigs: 8, NonCanonPct: 20, ECDSAPct: 25,
+	Storages: []string{"mem", "sql"}, MaxJump: 300, OtherLogPct: 15, Decorate: 45, SharedKeys: true, WKeySets: wkeySets, PlantPct: 60, MaxJunkSigs: 8, NonCanonPct: 20, ECDSAPct: 25, FaultPct: 8,
 	Weights: map[string]int{"grow": 40, "refresh": 30, "decorated": 14, "replay": 12, "badproof": 4, "wrongold": 4, "garbage": 3, "wrongkey": 2, "zero": 3},
 }
 
@@ -234,7 +234,7 @@ func checkHandouts(e *vlib.Env, steps []*vlib.Step) (bool, []string, error) {
 
 func runC04(c *vlib.HistCase) (bool, []string, error) {
 	e := vlib.NewEnv(c)
-	t, closer, err := e.NewPlainTarget()
+	t, closer, err := e.NewInstrumentedWitness() // storage faults: "accepted" must still mean "stored"
 	if err != nil {
 		return false, nil, fmt.Errorf("harness: %v", err)
 	}
